@@ -49,8 +49,9 @@ Example C11_example :
   /\ parse_many nat toy [tk ";" 0; tk "<ident>" 1; tk ";" 2; tk ";" 3; tk "<ident>" 4; tk "<eof>" 7] = ([1; 4], 0).
 Proof. vm_compute. split; reflexivity. Qed.
 
-(* ---- a family of statements for which NOTHING is left to a hypothesis: the twenty DDL statements of Parse/StmtModel.v (DROP ... , ANALYZE,
-   CREATE SCHEMA / DATABASE / ROLE, RENAME TABLE, GRANT, REVOKE -- the last three with comma-separated lists and look-ahead), modelled whole with the recover points of parseDDL and parseStatementInternal, tied to ParseDDL, ParseStatement,
+(* ---- a family of statements for which NOTHING is left to a hypothesis: the twenty-four DDL statements of Parse/StmtModel.v (DROP ... , ANALYZE,
+   CREATE SCHEMA / DATABASE / ROLE, RENAME TABLE, GRANT, REVOKE, CREATE / ALTER PROTO BUNDLE, ALTER INDEX, ALTER SEARCH INDEX -- the last seven
+   with comma-separated lists, optional clauses and look-ahead), modelled whole with the recover points of parseDDL and parseStatementInternal, tied to ParseDDL, ParseStatement,
    ParseDDLs and ParseStatements by the correspondence of every run.  Locality -- the one hypothesis of the list-loop theorem -- is PROVED for
    them (Parse/StmtProofs.v): whatever follows the terminator, the statement parser (accepting or recovering) returns the same node, records the
    same number of errors and stops at the same place, never beyond the terminator.  Hence, for every list whose pieces are statements of the
